@@ -33,6 +33,14 @@ def cases(rng, tier):
                        {"op": "introspect", "auth": A1, "token": "at1", "hint": None}]
                 out.append({"cfg": dict(H.World().cfg), "ops": ops})
                 out.append({"cfg": dict(H.World(strict_hint=True).cfg), "ops": ops})
+    # a resource server that asks the introspection endpoint (rfc7662.IntrospectTokenValidator): use, then revoke / expire / refresh, then use again
+    for end in ("revoke", "expire", "refresh", "nothing"):
+        for via in ("introspection", None):
+            use = {"op": "access", "token": "at1", "required": ["a"], "via": via}
+            mid = {"revoke": {"op": "revoke", "auth": A1, "token": "at1", "hint": None}, "expire": {"op": "advance", "dt": 900000},
+                   "refresh": {"op": "refresh", "auth": A1, "token": "rt2", "scope": None}, "nothing": {"op": "advance", "dt": 1}}[end]
+            out.append({"cfg": dict(H.World().cfg), "ops": [{"op": "issue_password", "auth": A1, "user": 1, "scope": "a b"}, use, dict(use), mid, dict(use), dict(use, required=None)]})
+    out += jwt9068_cases()
     for scope in (None, "a", "b a", "a z", "c"):
         ops = [{"op": "issue_password", "auth": A1, "user": 2, "scope": "a b"}, {"op": "refresh", "auth": A1, "token": "rt2", "scope": scope},
                {"op": "refresh", "auth": A1, "token": "rt2", "scope": None}, {"op": "access", "token": "at1", "required": ["a"]},
@@ -42,11 +50,77 @@ def cases(rng, tier):
     return out
 
 
+def jwt9068_cases():
+    """RFC 9068 JWT access tokens: what the JWT introspection endpoint reports and what the JWT resource validator does, around the expiry instant"""
+    return [{"op": "jwt9068", "off": off, "who": who} for off in (-100000, -1, 0, 1, 30, 59, 61, 100000) for who in ("owner", "other")]
+
+
+def impl_jwt9068(c):
+    import memserver as ms
+    from memserver import CLOCK, Client, Req
+    from authlib.jose import OctKey, KeySet
+    from authlib.oauth2 import ResourceProtector
+    from authlib.oauth2.rfc6749.errors import OAuth2Error
+    from authlib.oauth2.rfc9068 import JWTBearerTokenGenerator, JWTIntrospectionEndpoint, JWTBearerTokenValidator
+    ms.install_clock(); CLOCK.now = 1_000_000
+    store, srv, rp = ms.build(oidc=False)
+    key = OctKey.import_key(b"k" * 32, {"kid": "k1"})
+
+    class G(JWTBearerTokenGenerator):
+        def get_jwks(self):
+            return key
+
+    class I(JWTIntrospectionEndpoint):
+        CLIENT_AUTH_METHODS = ["client_secret_basic"]
+        def get_jwks(self):
+            return KeySet([key])
+        def get_username(self, user_id):
+            return None
+        def check_permission(self, token, client, request):
+            return token["client_id"] == client.get_client_id()
+
+    class V(JWTBearerTokenValidator):
+        def get_jwks(self):
+            return KeySet([key])
+    srv.register_token_generator("default", G(issuer="https://as.example", alg="HS256"))
+    srv._endpoints["introspection"] = []
+    srv.register_endpoint(I(issuer="https://as.example"))
+    store.clients["c1"] = Client("c1", "s1", ["https://c1/cb"], "a b", ms.ALL_GRANT_TYPES, ms.ALL_RESPONSE_TYPES)
+    store.clients["c2"] = Client("c2", "s2", ["https://c2/cb"], "a b", ms.ALL_GRANT_TYPES, ms.ALL_RESPONSE_TYPES)
+    r = srv.create_token_response(Req("POST", ms.TOKEN_URL, {"grant_type": "client_credentials", "scope": "a"}, ms.basic("c1", "s1")))
+    if r.status != 200:
+        return {"issue_failed": r.body}
+    at, exp_in = r.body["access_token"], r.body["expires_in"]
+    CLOCK.now += exp_in + c["off"]           # the instant, relative to the token's expiry
+    who = ms.basic("c1", "s1") if c["who"] == "owner" else ms.basic("c2", "s2")
+    try:
+        ri = srv.create_endpoint_response("introspection", Req("POST", "https://as.example/introspect", {"token": at}, who))
+        intro = {"status": ri.status, "active": ri.body.get("active") if isinstance(ri.body, dict) else None}
+    except Exception as e:
+        intro = {"raised": type(e).__name__}
+    prot = ResourceProtector(); prot.register_token_validator(V(issuer="https://as.example", resource_server="c1"))
+
+    class R:
+        headers = {"Authorization": "Bearer " + at}
+    try:
+        prot.validate_request(["a"], R)
+        served = True
+    except OAuth2Error as e:
+        served = e.error
+    except Exception as e:
+        served = "raised:" + type(e).__name__
+    return {"expires_in": exp_in, "introspection": intro, "served": served}
+
+
 def impl(c):
+    if c.get("op") == "jwt9068":
+        return impl_jwt9068(c)
     return H.replay_all(c)
 
 
 def model_line(c):
+    if c.get("op") == "jwt9068":
+        return None
     return {"cfg": c["cfg"], "ops": c["ops"]}
 
 
@@ -135,14 +209,38 @@ def project(c, out):
     return out
 
 
-oracle = H.oracle_all(oracle_core)
+_hist_oracle = H.oracle_all(oracle_core)
+
+
+def oracle(c, out):
+    if c.get("op") != "jwt9068":
+        return _hist_oracle(c, out)
+    v = []
+    if "issue_failed" in out:
+        return [(f"JWT access token could not be issued: {out['issue_failed']}", {"kind": "jwt9068-issue"})]
+    live = c["off"] <= 0
+    intro = out["introspection"]
+    if "raised" in intro:
+        return [(f"JWT introspection raised {intro['raised']}", {"kind": "crash", "op": "jwt9068", "exc": intro["raised"]})]
+    want_active = live and c["who"] == "owner"
+    if bool(intro.get("active")) != want_active:
+        v.append((f"RFC 9068 introspection {c['off']} s after the token's expiry by the {c['who']} client reports active={intro.get('active')}",
+                  {"kind": "introspect-active" if intro.get("active") else "introspect-inactive", "state": "expired" if not live else "live", "token": "jwt9068"}))
+    if (out["served"] is True) != live:
+        v.append((f"RFC 9068 resource validator {c['off']} s after the token's expiry: {out['served']}",
+                  {"kind": "access-served" if out["served"] is True else "access-refused", "state": "expired-or-unknown" if not live else "live", "token": "jwt9068"}))
+    return v
 
 
 def classify(c, out):
+    if c.get("op") == "jwt9068":
+        return f"jwt9068/{c['who']}/" + ("live" if c["off"] <= 0 else "expired")
     return "history/" + str(len(c["ops"]))
 
 
 def nontrivial(c, out):
+    if c.get("op") == "jwt9068":
+        return c
     return c["ops"]
 
 
